@@ -139,6 +139,13 @@ def run(chk):
     for i in range(n_scn):
         mode = rng.choice(["name", "name", "name", "path", "directory"])
         scns.append(pipe.gen_scenario(rng, mode=mode, dry=False, big=(i % 6 == 0)))
+    small = []
+    for st in ("stop", "ignore", "override"):
+        small += list(pipe.exhaustive_plans(2, strategy=st)) + list(pipe.exhaustive_plans(2, strategy=st, roots=2))
+        if not quick:
+            small += list(pipe.exhaustive_plans(3, strategy=st))
+    stats["exhaustive_small_scope"] = len(small)
+    scns += small
     all_s, all_o = [], []
     for s in scns:
         s_real = dict(s); s_real["dry"] = False
